@@ -332,5 +332,8 @@ def check(ctx):
         r1_acceptance(ctx, f, rep)
         r2_receive_loop(ctx, f, rep)
         r3_gating(ctx, f, rep)
+        # what is attached must be readable as custom items by the peer: the member count always precedes them
+        from . import c07 as _c07
+        _c07.count_always_present(ctx, f, rep, 'C16-R3')
         r4_broadcast(ctx, f, rep)
     rep.cur_config = None
